@@ -180,6 +180,36 @@ def _replace_returns(body, mk):
     return out
 
 
+def _returns_directly_in(loop, rets):
+    """every Return of `rets` lies in `loop` and not inside a loop / try / with nested in it"""
+    inner = set()
+    for n in ast.walk(loop):
+        if n is not loop and isinstance(n, (ast.For, ast.While, ast.Try, ast.With, ast.FunctionDef, ast.Lambda)):
+            inner |= {id(x) for x in ast.walk(n)}
+    inside = {id(x) for x in ast.walk(loop)}
+    return all(id(r) in inside and id(r) not in inner for r in rets)
+
+
+def _replace_returns_in_loop(loop, mk):
+    loop = copy.copy(loop)
+
+    def go(stmts):
+        out = []
+        for st in stmts:
+            if isinstance(st, ast.Return):
+                out.extend(mk(st.value))
+            elif isinstance(st, ast.If):
+                st = copy.copy(st)
+                st.body = go(st.body) or [ast.Pass()]
+                st.orelse = go(st.orelse)
+                out.append(st)
+            else:
+                out.append(st)
+        return out
+    loop.body = go(loop.body)
+    return loop
+
+
 def _inline_call(methods, call, how, target, depth, stop=(), ho_only=False, impure=False):
     """-> list of statements replacing the statement that contains `call`, or None"""
     f = call.func
@@ -222,8 +252,16 @@ def _inline_call(methods, call, how, target, depth, stop=(), ho_only=False, impu
     if not _tail_returns_only(body) and depth > 0:
         # constant-trip loops of the helper are unrolled first: their returns then sit in guard position
         body = flatten_body(methods, copy.deepcopy(body), depth - 1, None, stop, ho_only, impure)
+    search_loop = False
     if not _tail_returns_only(body):
-        return None
+        # a helper that ends in `while True:` and returns from inside it (a search loop): `return v` becomes `<target> = v; break`
+        last = body[-1] if body else None
+        rets = [n for s_ in body for n in ast.walk(s_) if isinstance(n, ast.Return)]
+        if how in ('assign', 'stmt') and isinstance(last, ast.While) and isinstance(last.test, ast.Constant) and last.test.value is True \
+                and not last.orelse and rets and _returns_directly_in(last, rets) and not any(isinstance(n, ast.Return) for s_ in body[:-1] for n in ast.walk(s_)):
+            search_loop = True
+        else:
+            return None
     # parameters that the helper re-binds cannot be replaced by expressions
     stored = {n.id for s in body for n in ast.walk(s) if isinstance(n, ast.Name) and isinstance(n.ctx, (ast.Store, ast.Del))}
     k = next(_counter)
@@ -238,15 +276,41 @@ def _inline_call(methods, call, how, target, depth, stop=(), ho_only=False, impu
             mapping[p] = bound[p]
     for loc in stored - set(params):
         mapping[loc] = '%s__i%d' % (loc, k)
+    # the locals the helper hands back take the names the caller gives them (a single `return a, b` of plain locals)
+    all_rets = [n for s_ in body for n in ast.walk(s_) if isinstance(n, ast.Return)]
+    if how == 'assign' and len(all_rets) == 1 and all_rets[0].value is not None:
+        rv = all_rets[0].value
+        r_names = [rv] if isinstance(rv, ast.Name) else (list(rv.elts) if isinstance(rv, ast.Tuple) else [])
+        t_names = [target] if isinstance(target, ast.Name) else (list(target.elts) if isinstance(target, ast.Tuple) else [])
+        arg_names = {n.id for a in bound.values() for n in ast.walk(a) if isinstance(n, ast.Name)}
+        used_in_helper = {n.id for s_ in body for n in ast.walk(s_) if isinstance(n, ast.Name)} | set(params)
+        if r_names and len(r_names) == len(t_names) and all(isinstance(x, ast.Name) for x in r_names + t_names) \
+                and len({x.id for x in r_names}) == len(r_names) and all(x.id in stored and x.id not in params for x in r_names) \
+                and not ({x.id for x in t_names} & (arg_names | (used_in_helper - {x.id for x in r_names}))):
+            for rn, tn in zip(r_names, t_names):
+                mapping[rn.id] = tn.id
     body = [_Subst(mapping).visit(copy.deepcopy(s)) for s in body]
-    body = _nest_guards(body)
-    if how == 'stmt':
+    if not search_loop:
+        body = _nest_guards(body)
+
+    def noop(tg, v):
+        return v is not None and ast.dump(tg).replace('Store()', 'Load()') == ast.dump(v)
+    if search_loop:
+        def mk(v):
+            if how == 'stmt':
+                pre_ = [] if v is None else [ast.Expr(value=v, lineno=call.lineno, col_offset=0)]
+            else:
+                pre_ = [] if noop(target, v) else [ast.Assign(targets=[copy.deepcopy(target)], value=v if v is not None else ast.Constant(value=None),
+                                                              lineno=call.lineno, col_offset=0)]
+            return pre_ + [ast.Break(lineno=call.lineno, col_offset=0)]
+        body = body[:-1] + [_replace_returns_in_loop(body[-1], mk)]
+    elif how == 'stmt':
         body = _replace_returns(body, lambda v: [] if v is None else [ast.Expr(value=v, lineno=call.lineno, col_offset=0)])
     elif how == 'return':
         pass
     else:   # assign
-        body = _replace_returns(body, lambda v: [ast.Assign(targets=[copy.deepcopy(target)], value=v if v is not None else ast.Constant(value=None),
-                                                            lineno=call.lineno, col_offset=0)])
+        body = _replace_returns(body, lambda v: [] if noop(target, v) else [ast.Assign(targets=[copy.deepcopy(target)], value=v if v is not None else ast.Constant(value=None),
+                                                                                          lineno=call.lineno, col_offset=0)])
     out = pre + body
     for s in out:
         for n in ast.walk(s):
@@ -361,6 +425,34 @@ def _hoist_nested(methods, body, stop):
     return out
 
 
+def _inline_local_closures(body):
+    """(structure-only mode) `def f(a): return <expr>` defined in this block and only ever called: its calls are replaced by <expr>
+    with the arguments substituted"""
+    for k, st in enumerate(body):
+        if not (isinstance(st, ast.FunctionDef) and not st.decorator_list and not st.args.vararg and not st.args.kwarg and not st.args.kwonlyargs
+                and not st.args.defaults):
+            continue
+        fb = [s_ for s_ in st.body if not (isinstance(s_, ast.Expr) and isinstance(s_.value, ast.Constant))]
+        if not (len(fb) == 1 and isinstance(fb[0], ast.Return) and fb[0].value is not None):
+            continue
+        params = [a.arg for a in st.args.posonlyargs + st.args.args]
+        rest = body[k + 1:]
+        uses = [n for s_ in rest for n in ast.walk(s_) if isinstance(n, ast.Name) and n.id == st.name]
+        calls = [n for s_ in rest for n in ast.walk(s_) if isinstance(n, ast.Call) and isinstance(n.func, ast.Name) and n.func.id == st.name]
+        if not uses or len(uses) != len(calls) or any(c.keywords or len(c.args) != len(params) for c in calls):
+            continue
+        expr = fb[0].value
+
+        class R(ast.NodeTransformer):
+            def visit_Call(self, n):
+                n = self.generic_visit(n)
+                if isinstance(n.func, ast.Name) and n.func.id == st.name:
+                    return ast.copy_location(_Subst(dict(zip(params, n.args))).visit(copy.deepcopy(expr)), n)
+                return n
+        return _inline_local_closures(body[:k] + [R().visit(s_) for s_ in rest])
+    return body
+
+
 def _lower_ifexp(body):
     """`x = a if c else f()` / `return a if c else f()`  ->  if c: x = a  else: x = f()   (only when a branch makes a call and the
     test is pure): path-sensitive analyses then see that the call is made on one side only."""
@@ -382,6 +474,8 @@ def flatten_body(methods, body, depth=3, consts=None, stop=(), ho_only=False, im
     consts = dict(consts or {})
     out = []
     body = _lower_ifexp(_callable_vars(list(body)))
+    if impure:
+        body = _inline_local_closures(body)
     if impure and depth > 0:
         body = _hoist_nested(methods, body, stop)
     for st in body:
@@ -480,3 +574,80 @@ def resolve_higher_order(model, cls):
 def flatten_function(module_funcs, fn, depth=3, stop=(), impure=False):
     """flatten() for a module-level function: private module-level helpers (`_h(...)`) are inlined"""
     return flatten({'func:' + k: v for k, v in module_funcs.items()}, fn, depth, stop, impure=impure)
+
+
+_FLIP_OPS = {ast.Lt: ast.Gt, ast.Gt: ast.Lt, ast.LtE: ast.GtE, ast.GtE: ast.LtE, ast.Eq: ast.Eq, ast.NotEq: ast.NotEq}
+
+
+def _pure_ref(e):
+    if isinstance(e, ast.Name):
+        return True
+    if isinstance(e, ast.Attribute):
+        return _pure_ref(e.value)
+    if isinstance(e, ast.Subscript):
+        return _pure_ref(e.value) and _pure_arg(e.slice)
+    return False
+
+
+def propagate_copies(fn):
+    """(on a copy) two meaning-preserving rewrites that let structural rules see through naming:
+    * a local bound exactly once, to a pure reference (`val = matrix[i]`, `dest = self.table[k]`), whose uses all follow the binding in
+      the same statement list and whose referenced names / containers are not written in between, is replaced by that reference;
+    * a comparison with its constant on the left is turned round (`9999 <= abs(x)` -> `abs(x) >= 9999`)."""
+    fn = copy.deepcopy(fn)
+    stores = {}
+    for n in ast.walk(fn):
+        if isinstance(n, ast.Name) and isinstance(n.ctx, (ast.Store, ast.Del)):
+            stores[n.id] = stores.get(n.id, 0) + 1
+    params = {a.arg for a in fn.args.posonlyargs + fn.args.args + fn.args.kwonlyargs}
+
+    def written_in(stmts, names):
+        for s_ in stmts:
+            for n in ast.walk(s_):
+                if isinstance(n, ast.Name) and isinstance(n.ctx, (ast.Store, ast.Del)) and n.id in names:
+                    return True
+                if isinstance(n, (ast.Subscript, ast.Attribute)) and isinstance(n.ctx, (ast.Store, ast.Del)):
+                    b = n
+                    while isinstance(b, (ast.Subscript, ast.Attribute)):
+                        b = b.value
+                    if isinstance(b, ast.Name) and b.id in names:
+                        return True
+                if isinstance(n, ast.Call) and isinstance(n.func, ast.Attribute) and isinstance(n.func.value, ast.Name) and n.func.value.id in names \
+                        and n.func.attr in ('append', 'extend', 'insert', 'remove', 'pop', 'clear', 'sort', 'reverse', 'update', 'fill', 'resize'):
+                    return True
+        return False
+
+    def visit_block(stmts):
+        k = 0
+        while k < len(stmts):
+            st = stmts[k]
+            for fld in ('body', 'orelse', 'finalbody'):
+                sub = getattr(st, fld, None)
+                if isinstance(sub, list) and sub and isinstance(sub[0], ast.stmt):
+                    visit_block(sub)
+            for h in getattr(st, 'handlers', []) or []:
+                visit_block(h.body)
+            if isinstance(st, ast.Assign) and len(st.targets) == 1 and isinstance(st.targets[0], ast.Name) and _pure_ref(st.value) \
+                    and not isinstance(st.value, ast.Name) and stores.get(st.targets[0].id) == 1 and st.targets[0].id not in params:
+                name = st.targets[0].id
+                rest = stmts[k + 1:]
+                uses_all = [n for n in ast.walk(fn) if isinstance(n, ast.Name) and n.id == name and isinstance(n.ctx, ast.Load)]
+                uses_rest = [n for s_ in rest for n in ast.walk(s_) if isinstance(n, ast.Name) and n.id == name and isinstance(n.ctx, ast.Load)]
+                refs = {n.id for n in ast.walk(st.value) if isinstance(n, ast.Name)}
+                if uses_all and len(uses_all) == len(uses_rest) and not written_in(rest, refs):
+                    sub_ = _Subst({name: st.value})
+                    stmts[k + 1:] = [sub_.visit(s_) for s_ in rest]
+                    del stmts[k]
+                    continue
+            k += 1
+    visit_block(fn.body)
+
+    class Flip(ast.NodeTransformer):
+        def visit_Compare(self, n):
+            self.generic_visit(n)
+            if len(n.ops) == 1 and type(n.ops[0]) in _FLIP_OPS and isinstance(n.left, ast.Constant) and not isinstance(n.comparators[0], ast.Constant):
+                return ast.copy_location(ast.Compare(left=n.comparators[0], ops=[_FLIP_OPS[type(n.ops[0])]()], comparators=[n.left]), n)
+            return n
+    fn = Flip().visit(fn)
+    ast.fix_missing_locations(fn)
+    return fn
